@@ -409,6 +409,68 @@ class Machine:
             self.models.update(models)
         self.stats = collections.Counter()
 
+    # ------------------------------------------------------------ exported std bodies
+    STD = ("core", "alloc", "std")
+    STD_PREFIX = ("core::", "alloc::", "std::", "<core::", "<alloc::", "<std::", "<I as core::", "<T as core::", "<T as alloc::", "<&", "<F as core::")
+    DISPATCH = {"next", "call", "call_mut", "call_once", "branch", "from_residual", "from_output", "into_iter", "into", "from", "as_ref", "deref", "clone", "eq", "ne", "lt", "le", "gt", "ge", "cmp", "partial_cmp", "next_back", "size_hint", "extend", "push", "default"}
+
+    def is_std_body(self, body):
+        return body is not None and (body.crate not in ("precis_core", "precis_profiles", "precis_tools", "pv_positive") and not body.crate.startswith("build_script")) or (body is not None and not body.id.startswith(("precis_", "<precis_", "pv_positive", "<pv_positive")) and body.d.get("span", {}).get("file", "").startswith("/") and "/library/" in body.d["span"]["file"])
+
+    def ext_simple(self, key, depth=0, stack=()):
+        """May an exported std body be interpreted instead of modelled? Only plain MIR: no raw pointers,
+        transmutes, intrinsics or inline asm, and every callee is modelled, dispatched on a trait the
+        machine dispatches itself, or simple in turn."""
+        memo = self.__dict__.setdefault("_ext_simple", {})
+        if key in memo:
+            return memo[key]
+        if key in stack:
+            return True
+        b = self.prog.bodies.get(key)
+        if b is None or depth > 8:
+            return False
+        from . import models as _models
+
+        ok = True
+        for bl in b.blocks:
+            if bl["cleanup"]:
+                continue
+            for st in bl["stmts"]:
+                if st["k"] in ("intrinsic", "other"):
+                    ok = False
+                elif st["k"] == "assign":
+                    rv = st["rv"]
+                    k = rv["k"]
+                    if k in ("raw_ptr", "other_rvalue", "thread_local_ref", "repeat"):
+                        ok = False
+                    elif k == "cast" and (rv["kind"] in ("Transmute", "PtrToPtr", "FnPtrToPtr") or "Expose" in rv["kind"]):
+                        ok = False
+                    elif k == "binop" and rv["op"] == "Offset":
+                        ok = False
+            t = bl["term"]
+            if t["k"] == "other":
+                ok = False
+            elif t["k"] == "call":
+                c = t["callee"]
+                if c is None:
+                    continue  # call through a fn pointer / closure value: dispatched at run time
+                p = c["path"]
+                if p in self.models or _models.pattern_model(c["full"]) or _models.pattern_model(p):
+                    continue
+                if (not c["resolved"] or c.get("virtual")) and c["name"] in self.DISPATCH:
+                    continue
+                if p.startswith("core::intrinsics::") or p.startswith("core::ub_checks") or "precondition_check" in p:
+                    ok = False
+                elif p in self.prog.bodies:
+                    if not self.ext_simple(p, depth + 1, stack + (key,)):
+                        ok = False
+                else:
+                    ok = False
+            if not ok:
+                break
+        memo[key] = ok
+        return ok
+
     # ------------------------------------------------------------ state construction
     def start(self, body_key, args, st=None):
         body = self.prog.body(body_key)
@@ -1009,6 +1071,8 @@ class Machine:
                 r = h(self, st, callee, args, t)
         if r is None or r is INLINE:
             body = self.prog.callee_body(callee)
+            if body is not None and body.ext and not self.ext_simple(body.key):
+                body = None  # an exported std body that is not plain MIR: needs a model
             if body is not None:
                 return self.push_frame(st, fr, t, body, args)
             raise AnalysisError("unmodelled call to %s (%s) at %s:%d" % (callee["full"], "resolved" if callee["resolved"] else "unresolved", t["span"]["file"], t["span"]["line"]))
